@@ -81,5 +81,25 @@ theorem mapM_wrapOne_oned (mask : List Bool) (xs : List α) (vs : List (List β)
     rw [List.mapM_cons, h2]
     simp [wrapOne, hv v (by simp)]
 
+theorem list_eq_map_range_getD (mask : List Bool) :
+    mask = (List.range mask.length).map fun x => mask.getD x true := by
+  apply List.ext_getElem
+  · simp
+  · intro k h1 h2
+    simp [List.getElem?_eq_getElem h1]
+
+/-- the 1×n frame `to_mask_2d` builds has as many unmasked pixels as the 1-D mask -/
+theorem totalPixels_toMask2d (mask : List Bool) :
+    Impl.totalPixels (toMask2d mask) = unmasked1d mask := by
+  rw [totalPixels_eq]
+  unfold Spec.unmaskedPixels unmasked1d toMask2d
+  simp only [pixels, List.range_one, List.flatMap_cons, List.flatMap_nil, List.append_nil,
+    List.filter_map, List.length_map]
+  conv => rhs; rw [list_eq_map_range_getD mask, List.filter_map, List.length_map]
+  congr 1
+  apply List.filter_congr
+  intro x _
+  simp [Mask.get, Function.comp]
+
 end Dec
 end Model
